@@ -141,10 +141,10 @@ def run_c03(res, rng):
     count_accepted(res, impl, cases)
     acc = {}
     for c in cases:
-        k = c.meta['kind']
+        k = c.meta.get('kind', 'corpus')
         a = any(l == 'V 1' for l in impl.get(c.cid, []))
         acc.setdefault(k, [0, 0])[0 if a else 1] += 1
-    res.cov['input_distribution'] = {('kind %d' % k): dict(accepted=v[0], rejected=v[1]) for k, v in sorted(acc.items())}
+    res.cov['input_distribution'] = {('kind %s' % k): dict(accepted=v[0], rejected=v[1]) for k, v in sorted(acc.items(), key=lambda kv: str(kv[0]))}
 
 # ------------------------------------------------------------------ C13 builders
 FIELDS = {1: [(0, 16), (1, 29), (2, 1), (3, 1), (4, 1), (5, 15), (6, 1), (7, 16)], 2: [(0, 16), (1, 29), (2, 1), (3, 1), (4, 1), (5, 21), (6, 1), (7, 16), (8, 3), (9, 1), (10, 1)],
@@ -701,7 +701,16 @@ def run_c15(res, rng):
         c = Case('sweep%d' % j, [D.feed_line(1, f) for f in fr], dict(frames=fr, exp=[]))
         cases.append(c)
     cases += [c15_siblings(rng.fork('sib%d' % i), 'sib%d' % i) for i in range(400 if res.tier == 'quick' else 20000)]
+    # what the all-static TECMP decoder returned when it was called during static initialisation of the process (harness probe)
+    cases.append(Case('sinit', ['SINIT'], dict(frames=[], exp=[])))
     def judge(c, lines):
+        if c.cid == 'sinit':
+            an = anomalies(lines)
+            if an: return an[0]
+            ns = [int(l.split()[1]) for l in lines if l.startswith('N ')]
+            if ns != [0, 1, 0]:
+                return 'called during static initialisation, the TECMP decoder returns %r packets for (truncated status, CAN, short status); expected [0, 1, 0]' % (ns,)
+            return None
         if c.cid.startswith('sib'):
             return judge_c15_seq(c, lines)
         if c.cid.startswith('sweep'):
@@ -711,7 +720,7 @@ def run_c15(res, rng):
             return None
         return judge_c15(c, lines)
     correspondence(res, cases, (lambda c, l: [x if x.startswith('K ') else 'N ' + x.split()[1] for x in l if x.startswith(('N ', 'K '))] + anomalies(l)), judge, 'TECMP conversion')
-    res.cov['rule'] = 'TECMP frames from the table serialiser: CAN (dlc 0-8), CAN-FD (dlc 9-64), LIN (0-20 bytes), capture-module status (random serial / versions), bus status (0-40 entries), unsupported message/data types, inner lengths that do not fit, announced payload longer than the buffer, trailing bytes; sequences of 3-5 messages decoded back to back that differ from each other in one field (same serial / other hardware version, one counter, one data byte); plus a sweep of all 256 message types x 17 (quick) / 303 (thorough) data types; judge = Python conversion spec. non-trivial = distinct frames of supported kinds'
+    res.cov['rule'] = 'TECMP frames from the table serialiser: CAN (dlc 0-8), CAN-FD (dlc 9-64), LIN (0-20 bytes), capture-module status (random serial / versions), bus status (0-40 entries), unsupported message/data types, inner lengths that do not fit, announced payload longer than the buffer, trailing bytes; sequences of 3-5 messages decoded back to back that differ from each other in one field (same serial / other hardware version, one counter, one data byte); the decoder called during static initialisation of the process (before main) on three canned frames; plus a sweep of all 256 message types x 17 (quick) / 303 (thorough) data types; judge = Python conversion spec. non-trivial = distinct frames of supported kinds'
     res.cov['distinct_nontrivial'] = len(set(tuple(c.lines) for c in cases if c.meta.get('exp')))
     res.cov['samples'] = [sample_case(c) for c in cases[:3]]
 
@@ -731,7 +740,8 @@ def st_packet(rng, kind, dev, ifid=0):
 
 def gen_c16(rng, cid, nops, devs=(1, 2, 3), ifs=(10, 20, 30)):
     lines = []
-    spec = {}   # dev -> [packet, {ifid: packet}]
+    spec = {}   # dev -> [packet, {ifid: packet}]   (the selected tracker object)
+    spec2 = {}  # the other tracker object
     exp = []
     slot = 0
     probes = list(devs) + list(ifs) + [99]
@@ -764,6 +774,13 @@ def gen_c16(rng, cid, nops, devs=(1, 2, 3), ifs=(10, 20, 30)):
                 elif kind == 'if': spec[d][1][i] = p
             elif kind == 'cm':
                 spec[d] = [p, {}]
+        elif k == 7 and rng.chance(1, 2):
+            # copies of a tracker are separate objects: copy, then keep using either one
+            import copy as _copy
+            if rng.chance(1, 2):
+                lines.append('SCOPY'); spec2 = _copy.deepcopy(spec)
+            else:
+                lines.append('SOTHER'); spec, spec2 = spec2, spec
         elif k < 9:
             lines.append('SRMDEV %d' % d); spec.pop(d, None)
         elif k < 11:
